@@ -240,6 +240,9 @@ func (h *harness) runScript(s Script, tie *lib.Tie) {
 		}
 		tie.Record(key, !small || i == len(s.Ops)-1, map[string]any{"script": prefix(s, i+1)}, model[i], code[i])
 		tie.Count("op:" + op.Op)
+		if op.Site != "" {
+			tie.Count(fmt.Sprintf("nested:%s site=%s calls=%d err=%s", op.Op, op.Site, len(op.In), part(code[i], "err")))
+		}
 		h.cover.call(op.Op, unspell(op))
 		if op.isWrite() {
 			// the reader of a write in this tie: the next read call of the script, if any
@@ -417,8 +420,10 @@ func inIcptImage(icpt, id string) bool {
 // for a later Get (checked on the real code by re-running the prefix and issuing the Get).
 func monitorGenID(m *lib.Monitor, s Script, i int, got, pre string) {
 	in := map[string]any{"script": prefix(s, i+1)}
-	ev := strings.Trim(part(got, "ev"), "[]")
-	id := strings.SplitN(ev, "|", 2)[0]
+	id := ""
+	if evs := listItems(part(got, "ev")); len(evs) > 0 {
+		id = strings.SplitN(evs[len(evs)-1], "|", 2)[0] // the call's own event (after those of calls made from its callbacks)
+	}
 	if id == "" {
 		m.Violate("C01/genid/empty-id", "generated id is empty", in, "non-empty id", got)
 		return
@@ -575,6 +580,16 @@ func genScript(r *rand.Rand, n int) Script {
 					}
 				}
 			}
+		}
+		// one write in six makes calls on the same resource from one of its own callbacks (nested.go)
+		if !s.Share && op.Off == 0 && (op.Op == "vset" || op.Op == "upd" || op.Op == "add") && r.Intn(6) == 0 {
+			var cur *rmsg
+			if s.Cfg.Kind == "val" {
+				cur = o.val
+			} else if it, ok := o.items[o.icpt(op.ID)]; ok {
+				cur = &it.m
+			}
+			op = withNested(r, op, cur)
 		}
 		o.step(op)
 		s.Ops = append(s.Ops, op)
